@@ -376,6 +376,12 @@ func c19File(c *Ctx, k c19Case) (nontrivial bool) {
 			c.Violate(api, "truncated-inside-document", shape, cas, nil, detail(fmt.Sprintf("document %d is cut: expected an error together with %d Maps", whole+1, whole)))
 		}
 	case "corrupt":
+		if k.Format == "json" && k.Byte == '}' && c19TopLevel(content, k.Offset) {
+			// a closing brace where no object is open: the file is malformed, whatever follows
+			if err == nil || len(got) != whole {
+				c.Violate(api, "malformed-file-yields-error", shape, cas, nil, detail(fmt.Sprintf("a stray '}' at top level after document %d: expected an error together with %d Maps", whole, whole)))
+			}
+		}
 		if k.Format == "xml" {
 			docs, failed := refXmlSequence(data)
 			if failed != (err != nil) || len(docs) != len(got) {
@@ -445,7 +451,7 @@ func c19GobCopy(c *Ctx, ms []map[string]interface{}) {
 func c19Run(c *Ctx) {
 	mustBeDefault(c)
 	mxj.XMLEscapeChars(true)
-	c.S.Rule = "cases = (list of 1..3 Maps, writer, indent, reader, fault): XML Maps decoded from 6 documents (attributes, repeated siblings, mixed content, special characters), JSON Maps from 6 objects (strings with braces, quotes, backslashes incl. a trailing escaped backslash, nested lists/maps, non-null scalars), plus lists that hold large documents (0.6 to 9 KB) before and between small ones (intact and 4 truncation offsets); writers XmlFile, XmlFileIndent, JsonFile, JsonFileIndent (default and safe) with indents {2 spaces, tab}; readers NewMapsFromXmlFile[Raw], NewMapsFromJsonFile[Raw]; faults: none, EVERY truncation offset, EVERY single-byte corruption offset x {X, <, {, quote, 0xFF}, missing file, directory. Oracle: intact => same count and order, each Map equal to the decode of its own encoding (JSON: the original), Raw contains the document text; truncation => error together with exactly the Maps wholly before the cut (clean end at a boundary); corruption => the Maps wholly before the fault are returned and equal, and for XML count/error agree with a reference sequential reader built on encoding/xml; unreadable file => error. Gob: all Maps encoded first, then all decoded (deep-equal up to nil-vs-empty); Copy: deep-equal, receiver unchanged, no shared container identity. non-trivial = faulted or intact read executed."
+	c.S.Rule = "cases = (list of 1..3 Maps, writer, indent, reader, fault): XML Maps decoded from 6 documents (attributes, repeated siblings, mixed content, special characters), JSON Maps from 6 objects (strings with braces, quotes, backslashes incl. a trailing escaped backslash, nested lists/maps, non-null scalars), plus lists that hold large documents (0.6 to 9 KB) before and between small ones (intact and 4 truncation offsets); writers XmlFile, XmlFileIndent, JsonFile, JsonFileIndent (default and safe) with indents {2 spaces, tab}; readers NewMapsFromXmlFile[Raw], NewMapsFromJsonFile[Raw]; faults: none, EVERY truncation offset, EVERY single-byte corruption offset x {X, <, {, }, comma, quote, 0xFF}, missing file, directory. Oracle: intact => same count and order, each Map equal to the decode of its own encoding (JSON: the original), Raw contains the document text; truncation => error together with exactly the Maps wholly before the cut (clean end at a boundary); corruption => the Maps wholly before the fault are returned and equal, and for XML count/error agree with a reference sequential reader built on encoding/xml; unreadable file => error. Gob: all Maps encoded first, then all decoded (deep-equal up to nil-vs-empty); Copy: deep-equal, receiver unchanged, no shared container identity. non-trivial = faulted or intact read executed."
 	c.S.Assumptions = []string{"gob cannot distinguish nil from empty containers (encoding/gob)", "callers register map[string]interface{} and []interface{} with encoding/gob (its contract)", "the empty JSON object is skipped by the file readers by design and is not in the alphabet"}
 	xmlDocs := []string{`<a/>`, `<a x="1">t</a>`, `<r><b>&lt;1&gt; &amp; "q"</b><a/></r>`, `<r><a>1</a><b/><a>2</a></r>`, `<r y="2">m<c>v</c></r>`, `<doc><k n="1">é</k></doc>`}
 	jsonDocs := []string{`{"a":1}`, `{"a":"}{\""}`, `{"a":"x\\"}`, `{"a":{"b":[1,{"c":"]"}]},"d":true}`, `{"k":"<&>","l":["s",2.5,false]}`, `{"e":"\\\"{"}`, `{"p":"C:\\dir\\ "}`}
@@ -495,7 +501,7 @@ func c19Run(c *Ctx) {
 							k.Fault, k.Offset = "truncate", off
 							run(k)
 							if off < n {
-								for _, b := range []int{'X', '<', '{', '"', 0xFF} {
+								for _, b := range []int{'X', '<', '{', '}', ',', '"', 0xFF} {
 									k2 := base
 									k2.Fault, k2.Offset, k2.Byte = "corrupt", off, b
 									run(k2)
@@ -581,4 +587,35 @@ func c19Len(format string, docs []string, in [2]string, safe bool) int {
 		s, _ = ms.JsonStringIndent(in[0], in[1], safe)
 	}
 	return len(s)
+}
+
+// c19TopLevel: in the intact JSON file, is offset off outside every object and outside every string
+// (white space between documents, or the opening brace of a document)?
+func c19TopLevel(intact []byte, off int) bool {
+	depth, inStr, esc := 0, false, false
+	for i, b := range intact {
+		if i == off {
+			return depth == 0 && !inStr
+		}
+		if inStr {
+			switch {
+			case esc:
+				esc = false
+			case b == '\\':
+				esc = true
+			case b == '"':
+				inStr = false
+			}
+			continue
+		}
+		switch b {
+		case '"':
+			inStr = true
+		case '{':
+			depth++
+		case '}':
+			depth--
+		}
+	}
+	return false
 }
